@@ -21,7 +21,15 @@ import (
 
 type Rng struct{ s uint64 }
 
-func NewRng(seed uint64) *Rng { return &Rng{s: seed*0x9E3779B97F4A7C15 + 0x1234567} }
+// NewRng scrambles the seed first so that consecutive seeds give unrelated streams
+// (seed*C+c0 would make seed k+1 the stream of seed k shifted by one draw).
+func NewRng(seed uint64) *Rng {
+	z := seed + 0x9E3779B97F4A7C15
+	z = (z ^ (z >> 30)) * 0xBF58476D1CE4E5B9
+	z = (z ^ (z >> 27)) * 0x94D049BB133111EB
+	z ^= z >> 31
+	return &Rng{s: z ^ 0xD1B54A32D192ED03}
+}
 
 func (r *Rng) U64() uint64 {
 	r.s += 0x9E3779B97F4A7C15
